@@ -124,9 +124,9 @@ def solve(assertions, stats=None, label=None, timeout_ms=QUERY_TIMEOUT_MS, want_
     if stats is not None:
         stats.queries += 1
         stats.solver_s += dt
-        h = hashlib.sha1(simp.sexpr().encode()).hexdigest()[:16]
+        h = hashlib.sha1(goal.sexpr().encode()).hexdigest()[:16]
         stats.hashes.add(h)
-        if not (z3.is_true(simp) or z3.is_false(simp)):
+        if not (z3.is_true(goal) or z3.is_false(goal)):
             stats.nontrivial.add(h)
         if r == "unsat":
             stats.unsat += 1
